@@ -233,6 +233,16 @@ fn run_tape(part: &str, tape: &[u8], cx: &mut Cx) -> Res {
     let mut t = Tape::new(tape);
     match part {
         "wire" => {
+            if t.below(300) == 0 {
+                // two accepted messages that an FNV-1a-32 digest of a natural region cannot tell apart, decoded back to back
+                if let Some((b1, b2, what)) = fnv_twin_messages(&mut t) {
+                    cx.class("two messages colliding under FNV-1a-32 decoded back to back");
+                    cx.class_dyn(format!("fnv twins: digest over {}", what));
+                    check_message(&b1, "fnv-twins", cx)?;
+                    check_message(&b2, "fnv-twins", cx)?;
+                    return check_message(&b1, "fnv-twins", cx);
+                }
+            }
             let mut b = gen_wire(&mut t);
             check_message(&b, "wire", cx)?;
             // the same buffer, changed in place (same address, same length), decoded again: a result must depend on the
@@ -241,7 +251,11 @@ fn run_tape(part: &str, tape: &[u8], cx: &mut Cx) -> Res {
                 let k = 1 + t.below(3);
                 for _ in 0..k {
                     let i = t.below(b.len());
-                    match t.below(5) {
+                    match t.below(6) {
+                        // an edit that keeps one of the common weak digests unchanged (sum, xor, 31- and 33-polynomial, Adler-32, CRC-32)
+                        5 => {
+                            let _ = digest_preserving_edit(&mut t, &mut b);
+                        }
                         0 => b[i] = 0xff,
                         1 => b[i] ^= 1 << t.below(8),
                         // edits that keep simple digests (sum, xor, 31-polynomial) unchanged: swap two octets; +1 / -31 on neighbours
